@@ -27,7 +27,12 @@ pub fn adversarial_alphabet(lang: &str) -> Vec<&'static str> {
         "xk" => ("か", "B", "\u{3099}", "ゟ", "が", "き"),
         _ => ("a", "B", "\u{301}", "ß", "é", "e"),
     };
-    vec![letter, capital, "1", " ", "-", "'", "\0", "\u{a0}", mark, expanding, composed, base, "ǅ", "𝐀"]
+    let mut a = vec![letter, capital, "1", " ", "-", "'", "\0", "\u{a0}", mark, expanding, composed, base, "ǅ", "𝐀"];
+    if lang == "xk" {
+        // a singleton composition: one character replaced by one other character (length unchanged)
+        a.push("\u{212b}");
+    }
+    a
 }
 
 fn check_both(cx: &mut Cx, lang: &'static str, lobj: &Lang, input: &str) {
@@ -311,10 +316,13 @@ impl Prop for Token {
                 let maxlen = if cx.tier == Tier::Thorough { 5 } else { 4 };
                 let lobj = take_lang(lang);
                 let mut total = 0u64;
+                // case 14 of a language: the empty string, and the symbols beyond the 14th as first symbol
+                let heads: Vec<usize> = if head == 14 { (14..alpha.len()).collect() } else { vec![head] };
                 if head == 14 {
                     check_both(cx, lang, &lobj, "");
                     total += 1;
-                } else {
+                }
+                for head in heads {
                     for len in 1..=maxlen {
                         let tail = len - 1;
                         for c in 0..alpha.len().pow(tail as u32) {
